@@ -40,6 +40,10 @@ def check(ctx: Ctx) -> None:
     # a multi-operation transaction becomes visible all at once: one commit point per attempt
     from .c01 import r5 as c01_r5
     c01_r5(ctx, "C02.R7")
+    # reads never move backwards: a pointer write that may have landed must not be cleaned up as a clean failure (the
+    # version readers already saw would vanish)
+    from .c04 import r1 as c04_r1
+    ctx.shared(c04_r1, "C04.R1", "C02.R8", "monotonic reads across an ambiguous commit")
 
 
 def r6(ctx: Ctx) -> None:
